@@ -444,6 +444,14 @@ func TestRegress(t *testing.T) {
 	}
 	for _, f := range files {
 		b, _ := os.ReadFile(f)
+		var head struct {
+			Test     string   `json:"test"`
+			Scenario deepCase `json:"scenario"`
+		}
+		if json.Unmarshal(b, &head) == nil && head.Test == "TestClassifyDeepEqual" {
+			runDeepCase(t, "TestRegress", head.Scenario, st)
+			continue
+		}
 		var tc tcase
 		_ = json.Unmarshal(b, &tc)
 		if len(tc.Conds) == 0 && tc.E == "" {
